@@ -7,6 +7,26 @@ ROOT = os.path.dirname(os.path.dirname(os.path.abspath(__file__)))
 
 # id -> (technique, level text, level note, design ref)
 CHECKS = {
+    "C01": ("property-based testing (Hypothesis): invariant over the reported dispatch table of generated portfolios",
+            "Exploration: generated portfolios of every asset class (multi-row variables, split, structured) are set up, "
+            "optimised and extracted through the real API; the oracle sums the documented dispatch columns per node and "
+            "step. Right level: the property is an invariant of every returned solution and the oracle is independent "
+            "of how rows are assembled.",
+            "Trusted: cvxpy solvers return what EAO reports; column labels as documented. Infeasible cases and set-up "
+            "errors of special variants make no claim (counted).",
+            "DESIGN.md 5 C01"),
+    "C04": ("property-based testing (Hypothesis): accounting identities between value, cost vector and DCF table",
+            "Exploration: for generated portfolios (incl. split/periodic/coarse/scaled/structured/order books) the DCF table "
+            "is compared with -c.x over each asset's own variable range derived independently from the concatenation "
+            "order and a fresh stand-alone build.",
+            "Trusted: numpy; fresh stand-alone builds of the same code give each asset's variable count.",
+            "DESIGN.md 5 C04"),
+    "C07": ("property-based testing (Hypothesis): structural invariants + differential against stand-alone asset problems, no solver",
+            "Exploration: assembled problems of generated portfolios (adversarial names, unmapped variables, appended "
+            "variables, several rows per variable) are compared block by block with the stand-alone problem of a fresh "
+            "copy of each asset and with the nodal rows recomputed from the mapping.",
+            "Trusted: scipy.sparse arithmetic; stand-alone set-up of an asset defines what 'the asset computed for it' means.",
+            "DESIGN.md 5 C07"),
     "C19": ("property-based testing (Hypothesis) against an independent UTC-arithmetic reference model",
             "Exploration: thousands of generated grids / windows / interval lists / price inputs per run are compared "
             "with a reference written from the statement (own time arithmetic). No solver, so the comparison is exact; "
